@@ -46,17 +46,29 @@ impl Clone for PathBuf {
     #[verifier::external_body]
     fn clone(&self) -> (r: PathBuf) ensures r == *self { unimplemented!() }
 }
+// path algebra: `join_spec(dir, name)` is the entry `name` of directory `dir`; `parent_spec`
+// is its inverse (None for a path without parent)
+pub uninterp spec fn join_spec(dir: Path, name: Seq<char>) -> Path;
+pub uninterp spec fn parent_spec(p: Path) -> Option<Path>;
 impl PathBuf {
     #[verifier::external_body]
-    pub fn join(&self, name: &str) -> (r: PathBuf) { unimplemented!() }
+    pub fn join(&self, name: &str) -> (r: PathBuf) ensures r.p == join_spec(self.p, name@) { unimplemented!() }
     #[verifier::external_body]
-    pub fn parent(&self) -> (r: Option<&Path>) { unimplemented!() }
+    pub fn parent(&self) -> (r: Option<&Path>)
+        ensures match r { Some(d) => parent_spec(self.p) == Some(*d), None => parent_spec(self.p) is None },
+    { unimplemented!() }
     #[verifier::external_body]
     pub fn as_path(&self) -> (r: &Path) ensures *r == self.p { unimplemented!() }
 }
 impl Path {
     #[verifier::external_body]
-    pub fn join(&self, name: &str) -> (r: PathBuf) { unimplemented!() }
+    pub fn join(&self, name: &str) -> (r: PathBuf) ensures r.p == join_spec(*self, name@) { unimplemented!() }
+    #[verifier::external_body]
+    pub fn parent(&self) -> (r: Option<&Path>)
+        ensures match r { Some(d) => parent_spec(*self) == Some(*d), None => parent_spec(*self) is None },
+    { unimplemented!() }
+    #[verifier::external_body]
+    pub fn is_dir(&self) -> (r: bool) { unimplemented!() }
     #[verifier::external_body]
     pub fn to_path_buf(&self) -> (r: PathBuf) ensures r.p == *self { unimplemented!() }
     #[verifier::external_body]
@@ -139,6 +151,9 @@ pub enum SeekFrom { Start(u64), End(i64), Current(i64) }
 #[verifier::external_body] pub struct NamedTempFile { _opaque: () }
 impl NamedTempFile {
     pub uninterp spec fn content(&self) -> Seq<u8>;
+    // the directory the temporary file was created in (where it stays until persisted, and
+    // where it is left behind if the process is killed)
+    pub uninterp spec fn dir_spec(&self) -> Path;
 }
 // A temporary file is never read by anybody: every state of it is fine.
 impl IoWrite for NamedTempFile {
@@ -148,7 +163,7 @@ impl IoWrite for NamedTempFile {
 impl NamedTempFile {
     #[verifier::external_body]
     pub fn new_in(dir: &PathBuf) -> (r: Result<NamedTempFile, IoError>)
-        ensures r matches Ok(t) ==> t.content().len() == 0,
+        ensures r matches Ok(t) ==> t.content().len() == 0 && t.dir_spec() == dir.p,
     { unimplemented!() }
     #[verifier::external_body]
     pub fn path(&self) -> (r: &Path) { unimplemented!() }
